@@ -304,13 +304,13 @@ def Pending (t : Tree) : Prop :=
   (t.root.needsRestore = true ∨ t.root.needsExpose = true) ∧ t.root.needsLater = true
 
 /-- The cell a window paints, as a terminal cell that names the window and the position. -/
-def encCell (w : Nat) (l c : Int) : WinRB.Cell := ⟨w + 1, l, c, false⟩
+def encCell (w : Nat) (l c : Int) : WinRB.Cell := ⟨w + 1, l, c, false, false⟩
 
 /-- The screen that shows, in every cell, who owns it in `t`. -/
 def snapshot (t : Tree) (L C : Int) : WinRB.Cell :=
   match ownerAt t L C with
   | some (w, l, c) => encCell w l c
-  | none => ⟨0, 0, 0, false⟩
+  | none => ⟨0, 0, 0, false, false⟩
 
 theorem invC_snapshot (t : Tree) : WinFlush.InvC encCell t (snapshot t) := by
   intro L C w l c ho
